@@ -52,6 +52,7 @@ InitState ==
    hist |-> [ty \in Tys |-> [t |-> -100000, ka |-> {}]], canAns |-> {},
    sat |-> {}, chain |-> {}, once |-> {}, soloed |-> {}, qT |-> -1, qKa |-> {}, qTypes |-> {}, qTc |-> FALSE, qNeed |-> {},
    hold |-> {}, lastTcSrc |-> 0,          \* truncated queries heard from the link, held per source until their continuation
+   busy |-> {}, lag |-> 0,                \* intervals in which the application keeps the loop busy; lateness of the start-up sequence so far
    err |-> ""]
 
 WLo(r, k, delay) == r.c + (750 + 100 * k) * r.ttl - delay
@@ -178,7 +179,10 @@ Served(st, tys, t) ==
 QuExpected(st) == IF st.forced = "QU" THEN TRUE ELSE IF st.forced = "QM" THEN FALSE ELSE st.nstart = 0
 
 (* start-up instants: s + r, then 1 s, 4 s and 9 s apart; r is the logged environment draw *)
-DueAt(st, k) == st.bs + st.r + (CASE k = 0 -> 0 [] k = 1 -> 1000 [] k = 2 -> 5000 [] OTHER -> 14000)
+\* (each start-up query arms the next one relative to the instant at which it actually ran: lateness carries over)
+DueAt(st, k) == st.bs + st.r + st.lag + (CASE k = 0 -> 0 [] k = 1 -> 1000 [] k = 2 -> 5000 [] OTHER -> 14000)
+\* a timer that falls due while the application keeps the loop busy fires when the loop is free again
+BusyEnd(st, d) == IF \E b \in st.busy : b[1] <= d /\ d < b[2] THEN (CHOOSE b \in st.busy : b[1] <= d /\ d < b[2])[2] ELSE d
 
 (* duplicate-question suppression (RFC 6762 7.3): asked or heard within the previous 999 ms with known
    answers that contained nothing this host does not know itself; QU questions are never suppressed *)
@@ -190,12 +194,12 @@ Suppressed(st, ty, t) == /\ ~QuExpected(st)
 (* a start-up instant that went by without any query datagram: every question must have been suppressed *)
 RECURSIVE SkipDue(_, _)
 SkipDue(st, t) ==
-  IF ~st.active \/ st.nstart >= 4 \/ st.r < 0 \/ DueAt(st, st.nstart) >= t THEN st
-  ELSE LET d == DueAt(st, st.nstart)
+  IF ~st.active \/ st.nstart >= 4 \/ st.r < 0 \/ BusyEnd(st, DueAt(st, st.nstart)) >= t THEN st
+  ELSE LET d == BusyEnd(st, DueAt(st, st.nstart))
            sh == FireHolds(st, d)            \* truncated queries whose hold ran out before that instant count, later ones do not
        IN IF Bad(\E ty \in sh.types : ~Suppressed(sh, ty, d), "C10_StartupSchedule") THEN Fail(sh, "C10_StartupSchedule")
           ELSE IF Bad(\E ty \in sh.types : ~Suppressed(sh, ty, d), "C13_NotSuppressed") THEN Fail(sh, "C13_NotSuppressed")
-          ELSE SkipDue([sh EXCEPT !.nstart = @ + 1, !.lastQ = d], t)
+          ELSE SkipDue([sh EXCEPT !.nstart = @ + 1, !.lastQ = d, !.lag = @ + d - DueAt(st, st.nstart)], t)
 
 Accumulate(st, e, t) ==
   [st EXCEPT !.qT = t, !.qKa = @ \cup {<<e.ka[k][1], e.ka[k][2]>> : k \in 1..Len(e.ka)},
@@ -219,10 +223,10 @@ OnQuery(st, e) ==
                ELSE Accumulate(st, e, t)
      ELSE IF Bad(\E q \in PtrQs(e) : q.qu # QuExpected(st), "C13_QuThenQm") THEN Fail(st, "C13_QuThenQm")
      ELSE IF st.nstart < 4
-          THEN IF Bad(st.r < 20 \/ st.r > 120 \/ t # DueAt(st, st.nstart), "C10_StartupSchedule") THEN Fail(st, "C10_StartupSchedule")
+          THEN IF Bad(st.r < 20 \/ st.r > 120 \/ t # BusyEnd(st, DueAt(st, st.nstart)), "C10_StartupSchedule") THEN Fail(st, "C10_StartupSchedule")
                ELSE IF Bad(\E ty \in tys : Suppressed(st, ty, t), "C13_Suppressed") THEN Fail(st, "C13_Suppressed")
                ELSE \* the other browsed types must follow in further datagrams of this instant unless suppressed
-                    [Accumulate(st, e, t) EXCEPT !.nstart = st.nstart + 1, !.lastQ = t,
+                    [Accumulate(st, e, t) EXCEPT !.nstart = st.nstart + 1, !.lastQ = t, !.lag = @ + t - DueAt(st, st.nstart),
                                                  !.qNeed = {ty \in st.types : ~Suppressed(st, ty, t)}]
      ELSE IF Bad(t < st.lastQ + st.delay, "C10_MinSpacing") THEN Fail(st, "C10_MinSpacing")
      ELSE IF Bad(\E ty \in tys : ~Justified(st, ty, t), "C10_NoStaleSchedule") THEN Fail(st, "C10_NoStaleSchedule")
@@ -241,6 +245,7 @@ Step(st0, e) ==
           [] e.ev = "rand"    -> IF e.site = "tc" THEN OnTcDraw(st1, e)
                                  ELSE IF e.site = "first" /\ st1.active /\ st1.r < 0 THEN [st1 EXCEPT !.r = e.v] ELSE st1
           [] e.ev = "reg"     -> [st1 EXCEPT !.canAns = @ \cup {e.ty}]
+          [] e.ev = "busy"    -> [st1 EXCEPT !.busy = @ \cup {<<e.from, e.until>>}]
           [] e.ev = "bcancel" -> [CloseQuery(st1) EXCEPT !.active = FALSE]
           [] e.ev = "cb"      -> OnRemoved(st1, e)
           [] e.ev = "end"     -> CloseQuery(st1)
